@@ -221,6 +221,18 @@ class StoreWatch(Monitor):
                     # while it had a job: the submit/kill/poll callbacks of
                     # that job still write to the store under the same ID
                     preds.append('orphaned_job_of_replaced_proxy')
+                if set(diffs) <= {'is_held', 'is_runahead', 'is_queued'} and any(
+                        d[3] in ('force_trigger_tasks', 'set')
+                        and d[4].get('flow') and d[4]['flow'] != ['none']
+                        and itask.identity in d[4].get('tasks', [])
+                        and itask.identity in d[6]
+                        for d in getattr(self.res, 'commands_done', [])):
+                    # a trigger/set with --flow=... on a task that was already
+                    # pooled builds a second proxy for the same ID (held /
+                    # runahead-limited as a fresh spawn) whose state deltas
+                    # reach the store before its flows are merged into the
+                    # pooled proxy and it is discarded
+                    preds.append('flow_command_on_pooled_task_left_shadow_state')
                 self.res.violate('store_differs_from_pool', {
                     'task': itask.identity, 'store_vs_pool': diffs,
                     'predicates': preds})
